@@ -67,6 +67,9 @@ def _dyadic(draw, tier):
     c["compiled"] = draw(st.booleans())
     c["int_times"] = draw(st.booleans())
     c["reconcile_off"] = draw(st.sampled_from([False, False, True]))
+    N = len(c["trains"])
+    c["indices"] = draw(st.one_of(st.none(), st.permutations(list(range(N))).map(
+        lambda p_: list(p_)[:max(2, N - 1)])))
     return c
 
 
@@ -186,10 +189,14 @@ def run_case(case, ctx):
                 forms.append(("pair_last", (sts[-1], sts[-2])))
         if kind in ("list", "generic"):
             forms.append(("list", (sts,)))
+            if case.get("indices") is not None:
+                forms.append(("indices", (sts,)))
         for fname, args in forms:
+            if fname == "indices":
+                kw = dict(kw, indices=list(case["indices"]))
             r = ctx.call(name, fn, *args, **kw)
             what = "%s(%s form) trains=%r settings=%r" % (
-                name, fname, case["trains"] if fname == "list" else
+                name, fname, case["trains"] if fname in ("list", "indices") else
                 [list(a.spikes) for a in args], kw)
             if hasattr(r, "x"):
                 msg = M.well_formed(r, t0, t1)
@@ -200,14 +207,15 @@ def run_case(case, ctx):
                     ctx.check(ps.is_finite(arr), "non_finite:" + name,
                               lambda: "%s -> %r" % (what, [list(a) for a in r]))
                 if name == "spike_directionality_values":
-                    ctx.check([len(a) for a in r] == [len(s.spikes) for s in
-                                                     (args[0] if fname == "list" else args)],
+                    owners = ([sts[k] for k in case["indices"]] if fname == "indices" else
+                              (args[0] if fname == "list" else args))
+                    ctx.check([len(a) for a in r] == [len(s.spikes) for s in owners],
                               "wrong_lengths:" + name, lambda: what)
             else:
                 ctx.check(ps.is_finite(r), "non_finite:" + name,
                           lambda: "%s -> %r" % (what, np.asarray(r).tolist()))
                 if np.ndim(r) == 2:
-                    n = len(sts)
+                    n = len(case["indices"]) if fname == "indices" else len(sts)
                     ctx.check(np.asarray(r).shape == (n, n), "matrix_shape:" + name,
                               lambda: "%s -> shape %r" % (what, np.asarray(r).shape))
     # psth: a public function that returns a profile on the recording of the trains
